@@ -126,6 +126,13 @@ impl Response {
     /// 
     /// should be called, like, just after router's handling
     pub(crate) fn complete(&mut self) {
+        #[cfg(feature="sse")]
+        if !matches!(self.content, Content::Stream(_)) && self.headers.TransferEncoding().is_some() {
+            /* left by `set_stream` when the content was replaced or dropped afterwards:
+               what follows the headers is not chunked */
+            self.headers.set().TransferEncoding(None);
+        }
+
         match (&self.content, &self.status) {
             (_, Status::NoContent) => {
                 if !/* not */self.headers.ContentLength().is_none() {
